@@ -883,6 +883,12 @@ def gen_c04(seed, tier, cap_for=lambda k: 2):
                 sc.ks_crypt(True, kind, 0, blk, t=1)
                 sc.ks_set_tweak(kind, 0, sc.rb_nz(sc.rng.randrange(1, bs + 1)))
                 sc.ks_crypt(True, kind, 0, blk, t=1)
+            # the new tweak handed over from INSIDE the object's own tweak field ("the second half of the
+            # tweak in force"): legal, source and destination of the library's copy do not overlap
+            for off, ln in ((bs // 2, bs // 2), (bs // 2, bs // 4), (bs - 2, 2), (bs - 1, 1)):   # off >= ln: disjoint from the copy
+                sc.ks_set_tweak(kind, 0, sc.rb_nz(bs))
+                sc.ks_set_tweak(kind, 0, bytes(ln), ln, selfoff=off)
+                sc.ks_crypt(True, kind, 0, blk, t=1)
             # random histories
             for h in range(20 if thorough else 2):
                 sc.reset("c04-hist-%s-%d-%d" % (kind, z, h))
@@ -958,6 +964,9 @@ def check_C04(work, tier, seed):
         run_mc(work, out, "MC_Tweak", neg, expect_fail=True)
     b = build(work)
     lines = backend_sweep(work, b, "C04", seed, lambda cf: gen_c04(seed, tier, cf), out)
+    # the 32-bit-word variant of the incremental tweak update (its own code in both ciphers)
+    b32 = build(work, name="w32", defs=["SKINNY_VERIF_64BIT=0"])
+    axis_compare(work, "C04", seed, out, lines, "SKINNY_64BIT=0", b32, gen_c04(seed, tier, lambda k: 0).text(), "-w32")
     # spec -> impl: every transition of the tweak machine's state graph on the real objects
     lines += conform(work, b, "C04", seed, graph_tweak_scenarios(work, seed, out).text(), out, tag="-graph")
     # a fresh process in which PLAIN keys of every size are expanded first (and in between): the
@@ -1433,6 +1442,8 @@ def ctr_invalid_all(sc, kind, o, probe=None):
     sc.ctr_set_counter(kind, o, None, bs + 1); P()
     sc.ctr_encrypt(kind, o, None, n=5); P()                            # null input
     sc.ctr_encrypt(kind, o, sc.rb(5), outnull=1); P()                  # null output
+    sc.ctr_encrypt(kind, o, None, n=0); P()                            # null pointers stay invalid for an empty request
+    sc.ctr_encrypt(kind, o, b"", outnull=1); P()
 
 
 def par_invalid_all(sc, kind, o):
@@ -1600,6 +1611,20 @@ def gen_c15(seed, tier, cap_for=lambda k: 2):
                     life[(fam, kind, o)] = "dead"
                 if sc.rng.random() < 0.4:
                     (sc.ctr_cleanup if fam == "ctr" else sc.par_cleanup)(kind, o)     # repeated cleanup
+            elif r < 0.62:
+                # refused calls and processing before any key: whatever they do inside, the object's
+                # resources are still released exactly once afterwards
+                if fam == "ctr":
+                    if sc.rng.random() < 0.5:
+                        ctr_invalid_all(sc, kind, o)
+                    else:
+                        sc.ctr_encrypt(kind, o, sc.rb(BS[kind] + 1))
+                else:
+                    if sc.rng.random() < 0.5:
+                        par_invalid_all(sc, kind, o)
+                    else:
+                        sc.par_crypt(kind, o, sc.rb(9 * BS[kind]), enc=True,
+                                     tweak=sc.rb(72) if kind == "mantis" else None)
             else:
                 if fam == "ctr":
                     ctr_use_all(sc, kind, o, mid=sc.rng.random() < 0.5)
@@ -1614,8 +1639,19 @@ def gen_c15(seed, tier, cap_for=lambda k: 2):
         for cyc in range(4):
             sc.ctr_init(kind, 0, cap=cap_for(kind))
             sc.par_init(kind, 0, cap=cap_for(kind))
+            if cyc:
+                # a re-initialised object starts from scratch: processing before any key is what it was
+                # in the first life, and refused calls in between do not disturb what cleanup releases
+                sc.ctr_encrypt(kind, 0, sc.rb(BS[kind] + 1))
+                sc.par_crypt(kind, 0, sc.rb(9 * BS[kind]), enc=True, tweak=sc.rb(72) if kind == "mantis" else None)
+            if cyc % 2 == 0:
+                ctr_invalid_all(sc, kind, 0)
+                par_invalid_all(sc, kind, 0)
             ctr_use_all(sc, kind, 0)
             par_use_all(sc, kind, 0)
+            if cyc % 2 == 1:
+                ctr_invalid_all(sc, kind, 0)
+                par_invalid_all(sc, kind, 0)
             sc.ctr_cleanup(kind, 0)
             sc.par_cleanup(kind, 0)
             ctr_use_all(sc, kind, 0)       # use after cleanup: every call returns 0
@@ -2316,6 +2352,21 @@ def gen_c09(seed, tier, cap_for=lambda k: 2):
                 kw = {"in": hx(sc.rb(n))}
                 sc.op("ctr_encrypt", k=kind, o=0, pi=pl, po=pls[(i * 5 + 1) % len(pls)], **kw)
                 sc.op("ctr_encrypt", k=kind, o=0, pi=pl, ip=1, **kw)
+        sc.ctr_cleanup(kind, 0)
+        # the stream standing at every kind of position inside a batch (block-aligned but inside the
+        # batch, unaligned, batch boundary), THEN a short or ragged request whose buffers end flush
+        # against the guard page, disjoint and in place
+        sc.reset("c09-ctr-pos-%s" % kind)
+        sc.ctr_init(kind, 0, cap=cap_for(kind))
+        sc.op("ctr_set_key", k=kind, o=0, key=hx(valid_key(sc, kind)), rounds=6, pk="e")
+        for pre in (bs, 2 * bs, 3 * bs, 5 * bs, 7 * bs, 8 * bs, bs + 3, 6 * bs):
+            for n in ((1, 5, bs - 1, bs + 1, 2 * bs + 7) if (thorough or pre in (bs, 5 * bs, bs + 3)) else (5, bs + 1)):
+                for ip in (None, 1):
+                    sc.op("ctr_set_counter", k=kind, o=0, ctr=hx(sc.rb(bs)), len=bs, pt="e")
+                    sc.op("ctr_encrypt", k=kind, o=0, pi="e", po="e", **{"in": hx(sc.rb(pre))})
+                    sc.op("ctr_encrypt", k=kind, o=0, pi="e", po="e", ip=ip, **{"in": hx(sc.rb(n))})
+                    # what follows in the stream is still right (nothing was consumed or clobbered)
+                    sc.op("ctr_encrypt", k=kind, o=0, pi="s", po="s", **{"in": hx(sc.rb(bs + 2))})
         sc.ctr_cleanup(kind, 0)
         sc.reset("c09-par-%s" % kind)
         sc.par_init(kind, 0, cap=cap_for(kind))
@@ -3334,8 +3385,10 @@ def graph_ctr_scenarios(work, seed, cap_for, out, kinds=("s128", "s64", "mantis"
                         n = (8 * bs - since % (8 * bs)) % (8 * bs) or 8 * bs
                     elif cls == "null_in":
                         sc.ctr_encrypt(kind, 0, None, n=5)
+                        sc.ctr_encrypt(kind, 0, None, n=0)
                     else:
                         sc.ctr_encrypt(kind, 0, sc.rb(5), outnull=1)
+                        sc.ctr_encrypt(kind, 0, b"", outnull=1)
                     if n is not None:
                         sc.ctr_encrypt(kind, 0, sc.rb(n))
                         if live:
